@@ -54,6 +54,23 @@ def anyCmd (cmd : String) (hs : List String) : String :=
        | .ok .sometimes => "sometimes"
        | .ok .never => "never")
     else if cmd == "F09A" then cmdF09 t
+    else if cmd == "F10A" then cmdF10 t
+    else if cmd == "F11A" then cmdF11 t
+    else if cmd == "DGA" then
+      (match depthVariance t with
+       | .error _ => "panic"
+       | .ok (.inv n) => s!"inv {n}"
+       | .ok .unb => "unb"
+       | .ok (.bnd r) =>
+         let lo := match r.lowerB with | .bnd n => toString n | _ => "-"
+         let hi := match r.upperB with | .ok (.bnd n) => toString n | _ => "-"
+         s!"rng {lo} {hi}")
+    else if cmd == "TA" then
+      (match textTok drvCasing t with
+       | .inv fs => "inv:" ++ hexStr (fragsToStr fs)
+       | _ => "var")
+    else if cmd == "RA" then
+      (match hasRoot t with | .always => "always" | .sometimes => "sometimes" | .never => "never")
     else cmdF t
 
 def handle (line : String) : String :=
@@ -178,6 +195,11 @@ def handle (line : String) : String :=
   | "FAN" :: _ :: hs => anyCmd "FAN" hs
   | "XA" :: _ :: hs => anyCmd "XA" hs
   | "F09A" :: _ :: hs => anyCmd "F09A" hs
+  | "F10A" :: _ :: hs => anyCmd "F10A" hs
+  | "F11A" :: _ :: hs => anyCmd "F11A" hs
+  | "DGA" :: _ :: hs => anyCmd "DGA" hs
+  | "TA" :: _ :: hs => anyCmd "TA" hs
+  | "RA" :: _ :: hs => anyCmd "RA" hs
   | ["F06", h] =>
     match parse (unhex h) with
     | .err _ => "err"
